@@ -18,7 +18,7 @@ def run(tier, seed):
     quick = tier == 'quick'
     tbuild = common.build_mmdump()
     mirs = common.prog_mirs()
-    groups = ['op', 'st', 'ct', 'cl', 'gn', 'fx']
+    groups = ['op', 'st', 'ct', 'cl', 'gn', 'fx', 'sc']
     files = common.corpus_files(groups, tier, seed)
     steps = 3 if quick else 6
     budget = 60 if quick else 300
@@ -63,7 +63,7 @@ def run(tier, seed):
         if acc and (acc['bytecode'] != acc['wasm'] or (acc['bytecode_panic'] is None) != (acc['wasm_panic'] is None)):
             if r.get('mode') == 'bmc':
                 accept_mismatch.append((r['program'], acc))
-        if r['status'] in ('rejected', 'no_dsp_io'):
+        if r['status'] in ('rejected', 'no_dsp_io', 'inductive_not_applicable'):
             skipped.append('%s: %s' % (r['program'], r['status']))
             continue
         nprog.add(r['program'])
